@@ -17,16 +17,18 @@ import (
 // ---- replayable description ----
 
 type ropD struct {
-	K    string `json:"k"` // new | handle | listen | mount | route
-	M    int    `json:"m,omitempty"`
-	Pat  string `json:"pat,omitempty"`
-	Hid  int    `json:"hid,omitempty"`
-	Grp  string `json:"grp,omitempty"`
-	Par  bool   `json:"par,omitempty"`
-	Lid  int    `json:"lid,omitempty"`
-	Path string `json:"path,omitempty"`
-	Sub  int    `json:"sub,omitempty"`
-	Body []ropD `json:"body,omitempty"`
+	K     string `json:"k"`               // new | newservice | handle | listen | listennil | mount | route | register
+	Lpat  string `json:"lpat,omitempty"`  // handle: Handler.Listeners = {lpat: listener lid} (lid > 0)
+	Onreg bool   `json:"onreg,omitempty"` // handle: with an OnRegister option
+	M     int    `json:"m,omitempty"`
+	Pat   string `json:"pat,omitempty"`
+	Hid   int    `json:"hid,omitempty"`
+	Grp   string `json:"grp,omitempty"`
+	Par   bool   `json:"par,omitempty"`
+	Lid   int    `json:"lid,omitempty"`
+	Path  string `json:"path,omitempty"`
+	Sub   int    `json:"sub,omitempty"`
+	Body  []ropD `json:"body,omitempty"`
 }
 type lookD struct {
 	M    int    `json:"m"`
@@ -40,12 +42,14 @@ type desc struct {
 // ---- the world: real muxes + the harness's own bookkeeping (never read from the trie) ----
 
 type regRec struct {
-	mux int
-	pat string
-	hid int
-	grp string
-	par bool
-	ok  bool
+	mux   int
+	pat   string
+	hid   int
+	grp   string
+	par   bool
+	ok    bool
+	onreg bool
+	clean bool
 }
 type lregRec struct {
 	mux int
@@ -61,6 +65,14 @@ type world struct {
 	regs   []regRec
 	lregs  []lregRec
 	called []int
+	reg    []bool // mux registered to a service
+	events []evt  // OnRegister callbacks fired by the current op
+	svc    *res.Service
+}
+
+type evt struct {
+	pat string
+	hid int
 }
 
 func split(p string) []string {
@@ -84,6 +96,7 @@ func (w *world) alloc(m *res.Mux, path string) int {
 	w.path = append(w.path, path)
 	w.top = append(w.top, len(w.mux)-1)
 	w.abs = append(w.abs, nil)
+	w.reg = append(w.reg, false)
 	return len(w.mux) - 1
 }
 
@@ -101,7 +114,7 @@ func (w *world) mounted(parent int, path string, sub int) {
 }
 
 func (w *world) handle(id int, o ropD) {
-	w.regs = append(w.regs, regRec{id, o.Pat, o.Hid, o.Grp, o.Par, false})
+	w.regs = append(w.regs, regRec{id, o.Pat, o.Hid, o.Grp, o.Par, false, o.Onreg, false})
 	i := len(w.regs) - 1
 	opts := []res.Option{res.Call(fmt.Sprintf("h%d", o.Hid), func(res.CallRequest) {})}
 	if o.Grp != "" {
@@ -110,8 +123,36 @@ func (w *world) handle(id int, o ropD) {
 	if o.Par {
 		opts = append(opts, res.Parallel(true))
 	}
+	if o.Onreg {
+		opts = append(opts, res.OnRegister(func(_ *res.Service, p res.Pattern, rh res.Handler) {
+			h := -1
+			for k := range rh.Call {
+				fmt.Sscanf(k, "h%d", &h)
+			}
+			w.events = append(w.events, evt{string(p), h})
+		}))
+	}
+	if o.Lid > 0 {
+		lid := o.Lid
+		w.lregs = append(w.lregs, lregRec{id, o.Lpat, lid, false})
+		li := len(w.lregs) - 1
+		lp := o.Lpat
+		opts = append(opts, res.OptionFunc(func(h *res.Handler) {
+			h.Listeners = map[string]func(*res.Event){lp: func(*res.Event) { w.called = append(w.called, lid) }}
+		}))
+		// the handler is registered before its listeners: if AddListener panics it stays registered
+		defer func() {
+			hid := o.Hid
+			w.regs[i].ok = w.mux[id].Contains(func(h res.Handler) bool { _, ok := h.Call[fmt.Sprintf("h%d", hid)]; return ok })
+			if rv := recover(); rv != nil {
+				panic(rv)
+			}
+			w.lregs[li].ok = true
+		}()
+	}
 	w.mux[id].Handle(o.Pat, opts...)
 	w.regs[i].ok = true
+	w.regs[i].clean = true
 }
 func (w *world) listen(id int, o ropD) {
 	w.lregs = append(w.lregs, lregRec{id, o.Pat, o.Lid, false})
@@ -144,7 +185,7 @@ func (w *world) route(parent int, path string, body []ropD) {
 func (w *world) exec(o ropD) (panicked bool, executable bool) {
 	okid := func(i int) bool { return i >= 0 && i < len(w.mux) }
 	switch o.K {
-	case "new":
+	case "new", "newservice":
 	case "mount":
 		if !okid(o.M) || !okid(o.Sub) || w.top[o.M] == o.Sub {
 			return false, false // unknown mux, or mounting a mux below itself (cyclic trie)
@@ -164,6 +205,18 @@ func (w *world) exec(o ropD) (panicked bool, executable bool) {
 	case "new":
 		m := res.NewMux(o.Path)
 		w.alloc(m, o.Path)
+	case "newservice":
+		sv := res.NewService(o.Path)
+		id := w.alloc(sv.Mux, o.Path)
+		w.reg[id] = true
+	case "register":
+		if w.svc == nil {
+			w.svc = res.NewService("dummy")
+		}
+		w.mux[o.M].Register(w.svc)
+		w.reg[o.M] = true
+	case "listennil":
+		w.mux[o.M].AddListener(o.Pat, nil)
 	case "handle":
 		w.handle(o.M, o)
 	case "listen":
@@ -234,15 +287,25 @@ func ropList(b []ropD) string {
 func opTerm(o ropD) string {
 	switch o.K {
 	case "new":
-		return "ONew " + B(o.Path)
+		return "XBase (ONew " + B(o.Path) + ")"
+	case "register":
+		return "XRegister " + Nat(o.M)
+	case "listennil":
+		return fmt.Sprintf("XListenNil %s %s", Nat(o.M), B(o.Pat))
 	case "handle":
-		return fmt.Sprintf("OHandle %s %s %d %s %s", Nat(o.M), B(o.Pat), o.Hid, B(o.Grp), Bool(o.Par))
+		if o.Lid > 0 {
+			return fmt.Sprintf("XHandleL %s %s %d %s %s %s %s %d", Nat(o.M), B(o.Pat), o.Hid, B(o.Grp), Bool(o.Par), Bool(o.Onreg), B(o.Lpat), o.Lid)
+		}
+		if o.Onreg {
+			return fmt.Sprintf("XHandleR %s %s %d %s %s", Nat(o.M), B(o.Pat), o.Hid, B(o.Grp), Bool(o.Par))
+		}
+		return fmt.Sprintf("XBase (OHandle %s %s %d %s %s)", Nat(o.M), B(o.Pat), o.Hid, B(o.Grp), Bool(o.Par))
 	case "listen":
-		return fmt.Sprintf("OListen %s %s %d", Nat(o.M), B(o.Pat), o.Lid)
+		return fmt.Sprintf("XBase (OListen %s %s %d)", Nat(o.M), B(o.Pat), o.Lid)
 	case "mount":
-		return fmt.Sprintf("OMount %s %s %s", Nat(o.M), B(o.Path), Nat(o.Sub))
+		return fmt.Sprintf("XBase (OMount %s %s %s)", Nat(o.M), B(o.Path), Nat(o.Sub))
 	default:
-		return fmt.Sprintf("ORoute %s %s %s", Nat(o.M), B(o.Path), ropList(o.Body))
+		return fmt.Sprintf("XBase (ORoute %s %s %s)", Nat(o.M), B(o.Path), ropList(o.Body))
 	}
 }
 func nList(xs []int) string {
@@ -279,7 +342,7 @@ func tmatch(p, s []string) bool {
 }
 
 type stats struct {
-	lookups, hits, multi, panics, regPanics, mountOK, routeOK, throughMount, groupTags, validateFail int
+	lookups, hits, multi, panics, regPanics, mountOK, routeOK, throughMount, groupTags, validateFail, callbacks int
 }
 
 // quirk = false: all lookups except those named path+"." on a mux with a non-empty path;
@@ -291,12 +354,27 @@ func mkCase(d desc, st *stats, quirk bool) (Case, bool) {
 	var ops []string
 	var done []ropD
 	for _, o := range d.Ops {
+		w.events = nil
+		nmux := len(w.mux)
 		p, ex := w.exec(o)
 		if !ex {
 			continue
 		}
 		done = append(done, o)
-		ops = append(ops, "("+opTerm(o)+","+Bool(p)+")")
+		evs := make([]string, len(w.events))
+		for i, e := range w.events {
+			evs[i] = fmt.Sprintf("(%s,%d)", B(e.pat), e.hid)
+		}
+		st.callbacks += len(w.events)
+		if o.K == "newservice" {
+			// NewService(name) = NewMux(name) ; Register
+			ops = append(ops, "(XBase (ONew "+B(o.Path)+"),"+Bool(p)+",[])")
+			if !p {
+				ops = append(ops, "(XRegister "+Nat(nmux)+",false,"+List(evs)+")")
+			}
+		} else {
+			ops = append(ops, "("+opTerm(o)+","+Bool(p)+","+List(evs)+")")
+		}
 		if p {
 			st.regPanics++
 		} else if o.K == "mount" {
@@ -380,7 +458,10 @@ func mkCase(d desc, st *stats, quirk bool) (Case, bool) {
 		absl = append(absl, fmt.Sprintf("(%s,%s)", Nat(w.top[i]), BList(w.abs[i])))
 	}
 	for _, r := range w.regs {
-		regs = append(regs, fmt.Sprintf("RG %s %s %d %s %s %s", Nat(r.mux), B(r.pat), r.hid, B(r.grp), Bool(r.par), Bool(r.ok)))
+		regs = append(regs, fmt.Sprintf("RG %s %s %d %s %s %s %s %s", Nat(r.mux), B(r.pat), r.hid, B(r.grp), Bool(r.par), Bool(r.ok), Bool(r.onreg), Bool(r.clean)))
+		if r.ok && !r.clean {
+			c.Tags = appendUniq(c.Tags, "handle-listener-panic")
+		}
 		if r.ok && len(w.abs[r.mux]) > 0 && w.top[r.mux] != r.mux {
 			// registered on a mounted mux or (below) through a mount point
 		}
@@ -403,7 +484,28 @@ func mkCase(d desc, st *stats, quirk bool) (Case, bool) {
 		lregs = append(lregs, fmt.Sprintf("LR %s %s %d %s", Nat(r.mux), B(r.pat), r.lid, Bool(r.ok)))
 	}
 	c.Desc = desc{Ops: done, Looks: kept}
-	c.Term = fmt.Sprintf("MC %s\n %s\n %s %s %s\n %s %s", List(ops), List(looks), List(valid), BList(w.path), List(absl), List(regs), List(lregs))
+	var regd, conts, paths []string
+	hids := map[int]bool{424242: true}
+	for _, r := range w.regs {
+		if len(hids) < 7 {
+			hids[r.hid] = true
+		}
+	}
+	var hl []int
+	for h := range hids {
+		hl = append(hl, h)
+	}
+	sort.Ints(hl)
+	for i := range w.mux {
+		regd = append(regd, Bool(w.reg[i]))
+		paths = append(paths, w.mux[i].Path())
+		for _, h := range hl {
+			key := fmt.Sprintf("h%d", h)
+			got := w.mux[i].Contains(func(hd res.Handler) bool { _, ok := hd.Call[key]; return ok })
+			conts = append(conts, fmt.Sprintf("(%s,%d,%s)", Nat(i), h, Bool(got)))
+		}
+	}
+	c.Term = fmt.Sprintf("MC %s\n %s\n %s %s %s\n %s %s %s %s", List(ops), List(looks), List(valid), BList(paths), List(absl), List(regs), List(lregs), List(regd), List(conts))
 	c.Nontrivial = multi
 	return c, hasQuirk
 }
@@ -874,7 +976,7 @@ func arrange(r *Rng, set []fpat, nsub int, withListeners bool) desc {
 		}
 	}
 	if topPath != "" {
-		d.Looks = append(d.Looks, lookD{0, topPath}, lookD{0, topPath + "."}, lookD{0, topPath + ".."}, lookD{0, "a"}, lookD{0, topPath[:1]})
+		d.Looks = append(d.Looks, lookD{0, topPath}, lookD{0, topPath + "."}, lookD{0, topPath + ".."}, lookD{0, topPath + "..a"}, lookD{0, topPath + "a"}, lookD{0, "a"}, lookD{0, topPath[:1]})
 	}
 	d.Looks = append(d.Looks, lookD{0, ""}, lookD{0, "."}, lookD{0, strings.Repeat("a.", 40) + "b"})
 	return d
@@ -1049,6 +1151,103 @@ func main() {
 			}
 		}
 	}
+	// (g) Register / OnRegister / AddListener(nil) / Mount of a registered mux, and (h) the scenarios of the
+	//     seeded rounds, scripted
+	if o.Replay == "" {
+		H := func(m int, pat string, hid int, grp string, onreg bool) ropD {
+			return ropD{K: "handle", M: m, Pat: pat, Hid: hid, Grp: grp, Onreg: onreg}
+		}
+		P := func(m int, pat string, hid int, grp string) ropD {
+			return ropD{K: "handle", M: m, Pat: pat, Hid: hid, Grp: grp, Par: true}
+		}
+		N := func(path string) ropD { return ropD{K: "new", Path: path} }
+		Mt := func(m int, path string, sub int) ropD { return ropD{K: "mount", M: m, Path: path, Sub: sub} }
+		Rg := func(m int) ropD { return ropD{K: "register", M: m} }
+		scripts := []struct {
+			ops   []ropD
+			names map[int][]string
+		}{
+			{[]ropD{{K: "newservice", Path: "svc"}, H(0, "a.$x", 1, "", true), N(""), H(1, "c.$y", 2, "${y}", true), H(1, "d", 3, "", false),
+				Mt(0, "m", 1), H(1, "e.*.>", 4, "", true), H(0, "m.f", 5, "", true), Rg(0), Rg(1), N("q"), Rg(2), Mt(0, "zz", 2),
+				{K: "listennil", M: 0, Pat: "a"}, {K: "listennil", M: 1, Pat: "x.$y"}, H(2, "w", 6, "", true), Rg(2), H(0, "", 7, "", true)},
+				map[int][]string{0: {"svc.a.1", "svc.m.c.2", "svc.m.e.x.y.z", "svc.m.f", "svc.m.d", "svc", "svc.", "svca"}, 1: {"c.2", "e.x.y", "f", ""}, 2: {"q.w", "q"}}},
+			{[]ropD{N("p"), H(0, "x.$a.*", 1, "", true), {K: "route", M: 0, Path: "r", Body: []ropD{{K: "handle", Pat: "k", Hid: 9}}}, N(""),
+				H(2, "$z", 2, "${z}", true), Mt(0, "s.t", 2), Rg(0), H(2, ">", 3, "", true), H(1, "k2.$q", 4, "${q}", true), Rg(0), H(0, "s.t.u.$v", 5, "${v}", true)},
+				map[int][]string{0: {"p.x.1.2", "p.s.t.zz", "p.s.t.a.b", "p.r.k", "p.r.k2.7", "p.s.t.u.9"}, 2: {"zz", "a.b", "u.9"}, 1: {"k", "k2.7"}}},
+			{[]ropD{N(""), H(0, "a.$x", 1, "", true), N("b"), H(1, "$y", 2, "", true), Mt(0, "a2", 1)},
+				map[int][]string{0: {"a.1", "a2.b.3"}}},
+			{[]ropD{N(""), N("b"), N(""), H(2, "c.$x", 1, "${x}", true), Mt(1, "", 2), Mt(1, "k", 2), Mt(0, "a", 1), Mt(0, "a2", 1), Rg(1), Rg(0), Rg(0),
+				Mt(0, "$x", 2), Mt(0, "a.>", 2), Mt(0, "*", 2), N("x"), Mt(0, "a.b", 3), Mt(0, "a", 3)},
+				map[int][]string{0: {"a.b.k.c.7", "a.b.k.c"}, 1: {"b.k.c.7"}, 2: {"c.7"}}},
+			// (h) single ${tag} group at token index 0, also through a mount point
+			{[]ropD{N(""), H(0, "$x", 1, "${x}", false), H(0, "$x.b", 2, "${x}", false), N(""), H(1, "$id", 3, "${id}", false), Mt(0, "m", 1), H(0, "m.$id.z", 4, "${id}", false)},
+				map[int][]string{0: {"foo", "foo.b", "m.v", "m.v.z", "", "m"}, 1: {"v", "v.z"}}},
+			// names that merely start with the path, trailing dots and empty tokens below a path
+			{[]ropD{N("svc"), H(0, "a", 1, "", false), H(0, "", 2, "", false), H(0, "$x.$y", 3, "${y}", false), H(0, "*", 4, "", false)},
+				map[int][]string{0: {"svca", "svc", "svc.a", "sv", "svc.", "svc..a", "svc..", "svc.a.", "svc.a..", "svc.a.b", ".svc", "svc.svc"}}},
+			// backtracking out of literal chains to '>' patterns registered above, flat and through mounts
+			{[]ropD{N(""), H(0, "a.>", 1, "", false), H(0, "a.b.c.d", 2, "", false), H(0, "a.b.$x.e", 3, "", false), N(""), H(1, "c.d", 4, "", false), H(1, "c.$x.e", 5, "", false),
+				Mt(0, "z.b", 1), H(0, "z.>", 6, "", false), H(0, "z.b.c.*.f", 7, "", false)},
+				map[int][]string{0: {"a.b.c.x", "a.b.c.d.e", "a.b.q.f", "a.b.c", "a.b.c.d", "a.b.c.e", "z.b.c.x", "z.b.c.d.e", "z.b.c.q.f", "z.b.c.q.e", "z.b", "z"}, 1: {"c.x", "c.d", "c.q.e", "c.q.f"}}},
+			// Handler.Listeners: registered by add after the handler, before the OnRegister callback
+			{[]ropD{{K: "newservice", Path: "s"}, {K: "handle", M: 0, Pat: "a.$x", Hid: 1, Lpat: "a.$x", Lid: 1, Onreg: true},
+				{K: "handle", M: 0, Pat: "b", Hid: 2, Lpat: "c.>", Lid: 2}, {K: "handle", M: 0, Pat: "d.$x", Hid: 3, Lpat: "d.$y", Lid: 3, Onreg: true},
+				{K: "handle", M: 0, Pat: "e", Hid: 4, Lpat: "e..f", Lid: 4, Onreg: true}, {K: "handle", M: 0, Pat: "e", Hid: 5, Lpat: "g", Lid: 5},
+				N(""), {K: "handle", M: 1, Pat: "$k", Hid: 6, Lpat: "$k", Lid: 6, Onreg: true}, Mt(0, "m", 1)},
+				map[int][]string{0: {"s.a.1", "s.b", "s.c.x", "s.d.1", "s.e", "s.g", "s.m.q"}, 1: {"q"}}},
+			// Parallel groups through mount points
+			{[]ropD{N(""), N("n"), Mt(0, "m", 1), P(0, "m.n.$x", 1, ""), P(1, "y.$z", 2, "${z}"), P(0, "m.n.y2.$w", 3, "${w}"), H(1, "g.$z", 4, "${z}", false)},
+				map[int][]string{0: {"m.n.1", "m.n.y.2", "m.n.y2.3", "m.n.g.4"}, 1: {"n.1", "n.y.2", "n.y2.3", "n.g.4"}}},
+		}
+		for _, sc := range scripts {
+			d := desc{Ops: sc.ops}
+			for m := 0; m < 4; m++ {
+				for _, n := range sc.names[m] {
+					d.Looks = append(d.Looks, lookD{m, n})
+				}
+			}
+			add("scripted", d)
+		}
+		// random arrangements with a registered top mux and OnRegister handlers
+		nreg := 60
+		if thorough {
+			nreg = 2500
+		}
+		for i := 0; i < nreg; i++ {
+			d := arrange(r, randSet(r, 8, 5), r.Intn(4), r.Chance(30))
+			for j := range d.Ops {
+				if d.Ops[j].K == "handle" && r.Chance(60) {
+					d.Ops[j].Onreg = true
+				}
+				if d.Ops[j].K == "handle" && r.Chance(25) {
+					d.Ops[j].Lid = 500 + j
+					d.Ops[j].Lpat = d.Ops[j].Pat
+					if r.Chance(25) {
+						d.Ops[j].Lpat = r.Pick([]string{"a.$x", "a..b", "zz.>", "", "$q"})
+					}
+				}
+			}
+			switch r.Intn(4) {
+			case 0:
+				d.Ops[0].K = "newservice"
+			case 1, 2:
+				at := 1 + r.Intn(len(d.Ops))
+				ops := append([]ropD{}, d.Ops[:at]...)
+				ops = append(ops, Rg(0))
+				d.Ops = append(ops, d.Ops[at:]...)
+			}
+			extra := []ropD{Rg(0), Rg(1), {K: "listennil", M: r.Intn(2), Pat: "a.$x"}, Rg(2), Mt(0, "zz", 2), H(0, "late.$l", 900+i, "${l}", true), H(1, "late2", 2900+i, "", true)}
+			for _, e := range extra {
+				if r.Chance(50) {
+					d.Ops = append(d.Ops, e)
+				}
+			}
+			if len(d.Looks) > 40 {
+				d.Looks = d.Looks[:40]
+			}
+			add("rand-registered", d)
+		}
+	}
 	dist["lookups"] = st.lookups
 	dist["lookup_hits"] = st.hits
 	dist["lookups_with_2+_matching_patterns"] = st.multi
@@ -1059,6 +1258,7 @@ func main() {
 	dist["registrations_through_a_mount_point"] = st.throughMount
 	dist["accepted_groups_with_tags"] = st.groupTags
 	dist["cases_failing_ValidateListeners"] = st.validateFail
+	dist["OnRegister_callbacks"] = st.callbacks
 	Emit(o, "C06", "From GoRes Require Import Run.Run_C06.", "mcase",
 		"op lists on real res.Mux values (NewMux/Handle/AddListener/Mount/Route under recover) + GetHandler on name lists: every pattern of <=3 tokens over {a,b,$x,$y,*,>} alone, every pair of <=2-token patterns (thorough: valid <=3-token ones), sampled triples, each x all names of <=3 (thorough 4) tokens over {a,b,c,\"\"}; random sets of <=12 patterns of depth <=6 flat and re-arranged over 1-3 mounted muxes / Route / path prefixes with group templates (valid and invalid) and listeners; malformed registrations and mounts. non-trivial = some lookup has >= 2 registered patterns matching the name; distinct by the whole case term",
 		cases, dist, nil, nil, 60)
